@@ -87,6 +87,8 @@ type Vector struct {
 	// cells written by the specification (the root of the bag is the source) and - when it has no pruned branches - also
 	// built in memory with boc.NewCellExotic
 	Bag string `json:"bag"`
+	// LibMade: the Merkle cell of the bag was made by the library itself (C->S: an earlier proof embedded below a new root)
+	LibMade bool `json:"libmade"`
 }
 
 var DictModes = []string{"tree", "dag", "boc"}
@@ -207,6 +209,7 @@ type twoStep struct {
 	srcBoc  string
 	preread string
 	bag     string // the source is the root of this bag (trees with Merkle cells below the root)
+	libmade bool
 }
 
 // readAll advances the read cursors of every cell of the DAG (about half of the bits, the first reference) and resets nothing.
@@ -274,6 +277,9 @@ func reset(w *ev.Writer, root *boc.Cell, kind, src, mode string, vec, n int, ts 
 	}
 	if ts != nil && ts.bag != "" {
 		m["bag"] = ts.bag
+	}
+	if ts != nil && ts.libmade {
+		m["libmade"] = true
 	}
 	w.Emit(m)
 }
@@ -452,7 +458,7 @@ func run(w *ev.Writer, v *Vector) error {
 			if err != nil {
 				return fmt.Errorf("vector %d: cannot build the source with Merkle cells (%s): %v", v.Vec, mode, err)
 			}
-			ts2 := &twoStep{preread: v.Preread}
+			ts2 := &twoStep{preread: v.Preread, libmade: v.LibMade}
 			preread(root, v.Preread, 0, nil)
 			if mode == "boc" {
 				ts2.bag = v.Bag
@@ -1157,6 +1163,44 @@ func Drive(w *ev.Writer, o Opts) {
 			v2 := &Vector{T: "walk", Vec: vec, Src: "rand:two-step", Orig: tab.Cells, SrcBoc: first[0], Script: script2, Preread: []string{"", "readall"}[(i/2)%2]}
 			if err := run(w, v2); err != nil {
 				panic(err)
+			}
+			// Merkle cell below the root (every fourth tree): the first proof - a Merkle-proof cell over a partly pruned tree,
+			// made by the library - becomes a child of a new ordinary root; sessions walk and prune anywhere, also beneath it
+			if i%4 == 0 {
+				mp, err := rootOfBag(first[0])
+				if err != nil {
+					continue
+				}
+				nr := boc.NewCell()
+				for _, ch := range randBits(rng, 1+rng.Intn(20)) {
+					_ = nr.WriteBit(ch == '1')
+				}
+				leaf := boc.NewCell()
+				_ = leaf.WriteUint(uint64(rng.Intn(1<<16)), 16)
+				kids := []*boc.Cell{leaf, mp}
+				if rng.Intn(2) == 0 {
+					mid := boc.NewCell()
+					_ = mid.WriteUint(uint64(rng.Intn(256)), 8)
+					_ = mid.AddRef(mp)
+					kids = []*boc.Cell{mid, leaf}
+				}
+				for _, k := range kids {
+					_ = nr.AddRef(k)
+				}
+				bag, err := boc.SerializeBoc(nr, false, false, false, 0)
+				if err != nil {
+					continue
+				}
+				xt := cells.Project([]*boc.Cell{nr})
+				var script3 []Step
+				for c := 1; c <= 2+rng.Intn(2); c++ {
+					script3 = append(script3, sessionOn(xt, c, false)...)
+				}
+				vec++
+				v3 := &Vector{T: "walk", Vec: vec, Src: "rand:merkle-below-root", Cells: xt.Cells, Roots: xt.Roots, Script: script3, Bag: hex.EncodeToString(bag), Modes: []string{"boc"}, LibMade: true}
+				if err := run(w, v3); err != nil {
+					panic(err)
+				}
 			}
 		}
 	}
